@@ -15,7 +15,7 @@ import (
 func init() {
 	register(&Property{
 		ID:        "C04",
-		Technique: "may-lockset + transitive blocking-operation summaries (lock-order / wait-for graph over lock classes), typestate over the stream watcher, value flow of write errors; tested-then-dropped error (contradiction) check and interprocedural lock-pairing check over the packages the property is anchored in",
+		Technique: "may-lockset + transitive blocking-operation summaries (lock-order / wait-for graph over lock classes), typestate over the stream watcher, value flow of write errors, call-path closure of the stream constructors with a who-must-wait-on (caller ctx.Done) rule for every blocking select on it; tested-then-dropped error (contradiction) check and interprocedural lock-pairing check over the packages the property is anchored in",
 		Explanation: "Structural conditions of 'cancel unblocks everything': " +
 			"(W1) wait-for analysis: for every lock the cancel path (Stream.Cancel, Manager.terminate) can block on, nothing that executes while that lock is held — transitively through further locks — is transport I/O, a wait on the application, or an unclassified blocking operation; three edges of today's tree violate this and are listed as known finding D9; " +
 			"(R2) SendCancel takes Stream.mu and Stream.write only with TryLock; " +
